@@ -259,6 +259,173 @@ Proof.
       cbn [rev map]. rewrite <- app_assoc. reflexivity.
 Qed.
 
+(* ---- universal-newline translation (a file opened with newline=None) *)
+
+Lemma list_ind2 {A} (P : list A -> Prop) :
+  P [] -> (forall x, P [x]) -> (forall x y l, P l -> P (y :: l) -> P (x :: y :: l)) -> forall l, P l.
+Proof.
+  intros H0 H1 H2 l. assert (H : P l /\ forall x, P (x :: l)).
+  { induction l as [|y l [IHa IHb]]; [split; [exact H0|exact H1]|].
+    split; [apply IHb|]. intros x. apply H2; [exact IHa|apply IHb]. }
+  exact (proj1 H).
+Qed.
+
+Definition starts_lf (b : str) : bool := match b with d :: _ => d =? c_lf | [] => false end.
+
+Lemma translate_crlf b : translate (c_cr :: c_lf :: b) = c_lf :: translate b.
+Proof. reflexivity. Qed.
+
+Lemma translate_cr b : starts_lf b = false -> translate (c_cr :: b) = c_lf :: translate b.
+Proof. destruct b as [|d b]; [reflexivity|]. cbn [starts_lf]. intros H. cbn [translate]. rewrite N.eqb_refl, H. reflexivity. Qed.
+
+Lemma translate_noncr c b : (c =? c_cr) = false -> translate (c :: b) = c :: translate b.
+Proof. intros H. cbn [translate]. rewrite H. reflexivity. Qed.
+
+Lemma translate_app a : forall b, starts_lf b = false -> translate (a ++ b) = translate a ++ translate b.
+Proof.
+  induction a as [| x | x y l IH1 IH2] using list_ind2; intros b Hb.
+  - reflexivity.
+  - cbn [app]. destruct (x =? c_cr) eqn:E.
+    + apply N.eqb_eq in E. subst x. rewrite translate_cr by exact Hb. reflexivity.
+    + rewrite !translate_noncr by exact E. reflexivity.
+  - cbn [app]. destruct (x =? c_cr) eqn:E.
+    + apply N.eqb_eq in E. subst x. destruct (y =? c_lf) eqn:Ey.
+      * apply N.eqb_eq in Ey. subst y. rewrite !translate_crlf, IH1 by exact Hb. reflexivity.
+      * rewrite !translate_cr by (cbn [starts_lf]; exact Ey).
+        change (y :: l ++ b) with ((y :: l) ++ b). rewrite IH2 by exact Hb. reflexivity.
+    + rewrite !(translate_noncr x) by exact E.
+      change (y :: l ++ b) with ((y :: l) ++ b). rewrite IH2 by exact Hb. reflexivity.
+Qed.
+
+Lemma translate_id s : forallb (fun c => negb (c =? c_cr)) s = true -> translate s = s.
+Proof.
+  induction s as [|c s IH]; [reflexivity|]. cbn [forallb]. intros H. apply andb_true_iff in H. destruct H as [Hc Hs].
+  apply negb_true_iff in Hc. rewrite translate_noncr by exact Hc. rewrite IH by exact Hs. reflexivity.
+Qed.
+
+Lemma translate_length s : (length (translate s) <= length s)%nat.
+Proof.
+  induction s as [| x | x y l IH1 IH2] using list_ind2.
+  - cbn. lia.
+  - destruct (x =? c_cr) eqn:E; [apply N.eqb_eq in E; subst x; cbn; lia|rewrite translate_noncr by exact E; cbn; lia].
+  - destruct (x =? c_cr) eqn:E.
+    + apply N.eqb_eq in E. subst x. destruct (y =? c_lf) eqn:Ey.
+      * apply N.eqb_eq in Ey. subst y. rewrite translate_crlf. cbn [length] in *. lia.
+      * rewrite translate_cr by (cbn [starts_lf]; exact Ey). cbn [length] in *. lia.
+    + rewrite translate_noncr by exact E. cbn [length] in *. lia.
+Qed.
+
+Lemma translate_nil_inv s : translate s = [] -> s = [].
+Proof.
+  destruct s as [|c s]; [reflexivity|]. cbn [translate]. destruct (c =? c_cr); discriminate.
+Qed.
+
+Lemma quote_not_cr : (quote =? c_cr) = false.
+Proof. unfold is_nl in Hq_nl. apply orb_false_iff in Hq_nl. tauto. Qed.
+Lemma quote_not_lf : (quote =? c_lf) = false.
+Proof. unfold is_nl in Hq_nl. apply orb_false_iff in Hq_nl. tauto. Qed.
+Lemma delim_not_cr : (delim =? c_cr) = false.
+Proof. unfold is_nl in Hd_nl. apply orb_false_iff in Hd_nl. tauto. Qed.
+Lemma delim_not_lf : (delim =? c_lf) = false.
+Proof. unfold is_nl in Hd_nl. apply orb_false_iff in Hd_nl. tauto. Qed.
+
+Lemma escape_cons_other c s : (c =? quote) = false -> escape' (c :: s) = c :: escape' s.
+Proof. intros H. cbn [escape_field]. rewrite H. reflexivity. Qed.
+
+Lemma escape_cons_quote s : escape' (quote :: s) = quote :: quote :: escape' s.
+Proof. cbn [escape_field]. rewrite N.eqb_refl. reflexivity. Qed.
+
+Lemma starts_lf_escape y l : (y =? c_lf) = false -> starts_lf (escape' (y :: l)) = false.
+Proof.
+  intros H. cbn [escape_field]. destruct (y =? quote); cbn [starts_lf]; [exact quote_not_lf|exact H].
+Qed.
+
+Lemma translate_escape s : translate (escape' s) = escape' (translate s).
+Proof.
+  assert (Hcrq : (c_cr =? quote) = false) by (rewrite N.eqb_sym; exact quote_not_cr).
+  assert (Hlfq : (c_lf =? quote) = false) by (rewrite N.eqb_sym; exact quote_not_lf).
+  assert (Hstep : forall x l, (x =? c_cr) = false ->
+            translate (escape' l) = escape' (translate l) ->
+            translate (escape' (x :: l)) = escape' (translate (x :: l))).
+  { intros x l E IH. rewrite (translate_noncr x) by exact E. destruct (x =? quote) eqn:Eq.
+    - apply N.eqb_eq in Eq. subst x. rewrite !escape_cons_quote.
+      rewrite !(translate_noncr quote) by exact quote_not_cr. rewrite IH. reflexivity.
+    - rewrite !escape_cons_other by exact Eq. rewrite translate_noncr by exact E. rewrite IH. reflexivity. }
+  induction s as [| x | x y l IH1 IH2] using list_ind2.
+  - reflexivity.
+  - destruct (x =? c_cr) eqn:E.
+    + apply N.eqb_eq in E. subst x. rewrite escape_cons_other by exact Hcrq. cbn [escape_field translate].
+      rewrite N.eqb_refl. rewrite escape_cons_other by exact Hlfq. reflexivity.
+    + apply Hstep; [exact E|reflexivity].
+  - destruct (x =? c_cr) eqn:E.
+    + apply N.eqb_eq in E. subst x. rewrite escape_cons_other by exact Hcrq.
+      destruct (y =? c_lf) eqn:Ey.
+      * apply N.eqb_eq in Ey. subst y. rewrite escape_cons_other by exact Hlfq.
+        rewrite !translate_crlf, IH1. rewrite escape_cons_other by exact Hlfq. reflexivity.
+      * rewrite translate_cr by (apply starts_lf_escape; exact Ey).
+        rewrite translate_cr by (cbn [starts_lf]; exact Ey).
+        rewrite IH2. rewrite escape_cons_other by exact Hlfq. reflexivity.
+    + apply Hstep; [exact E|exact IH2].
+Qed.
+
+Definition trf (p : bool * str) : bool * str := (fst p, translate (snd p)).
+
+Lemma special_not_cr s : forallb (fun c => negb (special c)) s = true -> forallb (fun c => negb (c =? c_cr)) s = true.
+Proof.
+  intros H. rewrite forallb_forall in *. intros c Hc. specialize (H c Hc).
+  apply negb_true_iff in H. destruct (special_false c H) as [_ [_ H3]].
+  unfold is_nl in H3. apply orb_false_iff in H3. destruct H3 as [_ H3]. rewrite H3. reflexivity.
+Qed.
+
+Lemma translate_wfield p :
+  fst p = true \/ forallb (fun c => negb (special c)) (snd p) = true ->
+  translate (wfield p) = wfield (trf p).
+Proof.
+  destruct p as [q s]. unfold wfield, trf. cbn [fst snd]. intros H. destruct q.
+  - rewrite translate_noncr by exact quote_not_cr.
+    rewrite translate_app by (cbn [starts_lf]; exact quote_not_lf).
+    rewrite translate_escape. cbn [translate]. rewrite quote_not_cr. reflexivity.
+  - destruct H as [H|H]; [discriminate|]. cbv iota. rewrite translate_id by (apply special_not_cr; exact H). reflexivity.
+Qed.
+
+Lemma translate_row_text fs : Forall field_ok fs -> translate (row_text fs) = row_text (map trf fs).
+Proof.
+  induction fs as [|p fs IH]; intros H; [reflexivity|].
+  inversion H as [|p' fs' [_ Hp] Hfs]; subst.
+  destruct fs as [|p2 fs].
+  - unfold row_text. cbn [map join_char]. apply translate_wfield, Hp.
+  - unfold row_text in *. cbn [map join_char] in *.
+    rewrite translate_app by (cbn [starts_lf]; exact delim_not_lf).
+    rewrite translate_wfield by exact Hp. rewrite translate_noncr by exact delim_not_cr.
+    rewrite IH by exact Hfs. reflexivity.
+Qed.
+
+Lemma translate_rows_text frows :
+  Forall frow_ok frows ->
+  translate (rows_text [c_cr; c_lf] frows) = rows_text [c_lf] (map (map trf) frows).
+Proof.
+  induction frows as [|fs rest IH]; intros H; [reflexivity|].
+  inversion H as [|fs' rest' [Hfs _] Hrest]; subst.
+  unfold rows_text in *. cbn [map concat]. rewrite <- !app_assoc.
+  rewrite translate_app by reflexivity. cbn [app]. rewrite translate_crlf.
+  rewrite translate_row_text by exact Hfs. rewrite IH by exact Hrest. reflexivity.
+Qed.
+
+Lemma field_ok_trf p : field_ok p -> field_ok (trf p).
+Proof.
+  destruct p as [q s]. unfold field_ok, trf. cbn [fst snd]. intros [Hl Hq]. split.
+  - pose proof (translate_length s). lia.
+  - destruct Hq as [Hq|Hq]; [left; exact Hq|right]. rewrite translate_id by (apply special_not_cr, Hq). exact Hq.
+Qed.
+
+Lemma frow_ok_trf fs : frow_ok fs -> frow_ok (map trf fs).
+Proof.
+  intros [Hf Hne]. split.
+  - apply Forall_map. revert Hf. apply Forall_impl. exact field_ok_trf.
+  - intros E. apply Hne. destruct fs as [|[q s] fs]; [discriminate|]. destruct fs; [|discriminate].
+    cbn in E. inversion E as [[Eq Es]]. apply translate_nil_inv in Es. subst. reflexivity.
+Qed.
+
 (* ---- the writer emits such a text *)
 
 Lemma existsb_ext' {A} (f g : A -> bool) l : (forall x, f x = g x) -> existsb f l = existsb g l.
@@ -370,6 +537,27 @@ Proof.
   - cbn [rev app]. f_equal. rewrite map_map. rewrite <- (map_id rows) at 2. apply map_ext. exact snd_flag_row.
   - left. exact Hterm.
   - apply Forall_map. revert H. apply Forall_impl. exact frow_ok_flag.
+Qed.
+
+Lemma snd_trf_flag_row r : map snd (map trf (flag_row r)) = map translate r.
+Proof.
+  rewrite map_map. rewrite <- (snd_flag_row r) at 2. rewrite map_map. reflexivity.
+Qed.
+
+(* the same file read through a text stream opened with newline=None (what sheets.load_csv
+   does): the rows come back with every cell newline-normalised, nothing else changes *)
+Theorem csv_text_roundtrip_gen rows :
+  Forall (Forall len_ok) rows ->
+  csv_read delim quote lim (translate (csv_write delim quote term rows)) = Ok (map (map translate) rows).
+Proof.
+  intros H. unfold csv_read. rewrite csv_write_flag.
+  assert (Hok : Forall frow_ok (map flag_row rows)).
+  { apply Forall_map. revert H. apply Forall_impl. exact frow_ok_flag. }
+  rewrite Hterm. rewrite translate_rows_text by exact Hok.
+  rewrite run_rows.
+  - cbn [rev app]. f_equal. rewrite !map_map. apply map_ext. intros r. apply snd_trf_flag_row.
+  - right. reflexivity.
+  - apply Forall_map. revert Hok. apply Forall_impl. exact frow_ok_trf.
 Qed.
 
 End Writer.
